@@ -290,12 +290,24 @@ def run_batch(cases):
     time limits of run_direct) and the batch resumes behind it; nothing is dropped, no exception escapes."""
     res, limit = [], T_BATCH
     while len(res) < len(cases):
-        part, timed_out = batch_once(cases[len(res):], limit)
+        if HUNG:     # a script was found not to terminate: its remaining cases are not started (reported as a cap)
+            while len(res) < len(cases) and cases[len(res)].split("|", 1)[0] in HUNG:
+                res.append(Res(False, "", "not started", None, "skipped"))
+            todo = []
+            for cs in cases[len(res):]:
+                if cs.split("|", 1)[0] in HUNG:
+                    break
+                todo.append(cs)
+            if not todo:
+                continue
+        else:
+            todo = cases[len(res):]
+        part, timed_out = batch_once(todo, limit)
         res += part
         if timed_out:
             STATS["timeouts_retried"] += 1
             limit = 10 * T_BATCH            # the machine is slow: give the following batches the long limit
-        if len(res) < len(cases):
+        if len(part) < len(todo):
             res.append(run_direct(cases[len(res)], "fb"))
     return res
 
@@ -1198,8 +1210,12 @@ def main():
                 chunk[:] = [cs for cs in chunk if cs.split("|", 1)[0] not in HUNG]
         if not chunk:
             return
-        results = run_batch(chunk) if mode == "batch" else [run_direct(cs, "d") for cs in chunk]
+        results = run_batch(chunk) if mode == "batch" else [(run_direct(cs, "d") if cs.split("|", 1)[0] not in HUNG else Res(False, "", "not started", None, "skipped")) for cs in chunk]
         for cs, res in zip(chunk, results):
+            if res.hang == "skipped":
+                R.cap("script(s) %s do not terminate: their remaining cases were not started (counter not_started_after_hang)" % ",".join(sorted(HUNG)))
+                R.count("not_started_after_hang")
+                continue
             fails, sig = evaluate(cs, res)
             R.eval()
             R.count(sig[0])
